@@ -7,6 +7,12 @@ Import ListNotations.
 Open Scope Qc_scope.
 
 Definition lift (o : option Qc) : mres := match o with Some q => MVal q | None => MNan end.
+Lemma mres_eqb_eq : forall a b, mres_eqb a b = true <-> a = b.
+Proof.
+  destruct a, b; simpl; split; intros H; try discriminate; try reflexivity.
+  - apply Qceqb_true in H. congruence.
+  - inversion H. apply Qceqb_true. reflexivity.
+Qed.
 
 (* ------------------------------------------------------------------ characterising lemmas of the generated kernels *)
 Lemma zlen_nonneg : forall A (l : list A), (0 <= zlen l)%Z.
